@@ -7,13 +7,63 @@
  *   SYS LU n n   a (n*n complex) b (n complex)
  *   SYS QR m n   a (m*n complex) b (m complex)
  *   X n  x (n complex)                                   the solution returned
+ * Leakage tie: the _vnacal_new_solve_simple of the included file is renamed calcore_inner_solve_simple; the
+ * function of that name defined here (the one vnacal_new_solve.c calls, once per frequency, right after
+ * _vnacal_new_solve_start_frequency) first prints the leakage state of the solve and then calls the real one:
+ *   LEAK findex outside=0|1 stds=N
+ *   LK findex row col count sum_re sum_im    vnss_leakage_matrix[cell]: vnlt_count, vnlt_sum (%a), off-diagonal cells
+ *   LS findex std row col                    standard `std` (vnm_index) is a sample of the cell: the cell was given
+ *                                            (vnm_m_matrix != NULL) and vnm_connectivity_matrix says no path
+ *   LA findex std cell re im                 vnmm_m_matrix of every given cell (measured value minus leakage mean)
+ *   endleak findex
  */
 #define _vnacommon_mldivide calcore_hook_mldivide
 #define _vnacommon_qrsolve calcore_hook_qrsolve
+#define _vnacal_new_solve_simple calcore_inner_solve_simple
 #include "vnacal_new_solve_simple.c"
+#undef _vnacal_new_solve_simple
 #undef _vnacommon_mldivide
 #undef _vnacommon_qrsolve
 #include <stdio.h>
+
+int _vnacal_new_solve_simple(vnacal_new_solve_state_t *vnssp, double complex *x_vector, int x_length)
+{
+    vnacal_new_t *vnp = vnssp->vnss_vnp;
+    const vnacal_layout_t *vlp = &vnp->vn_layout;
+    const int m_rows = VL_M_ROWS(vlp), m_columns = VL_M_COLUMNS(vlp);
+    const int s_columns = VL_S_COLUMNS(vlp);
+    const int findex = vnssp->vnss_findex;
+
+    printf("LEAK %d outside=%d stds=%d\n", findex, vnssp->vnss_leakage_matrix != NULL ? 1 : 0,
+	    vnp->vn_measurement_count);
+    if (vnssp->vnss_leakage_matrix != NULL) {
+	for (int row = 0; row < m_rows; ++row)
+	    for (int column = 0; column < m_columns; ++column) {
+		const vnacal_new_leakage_term_t *vnltp = vnssp->vnss_leakage_matrix[row * m_columns + column];
+		if (row == column)
+		    continue;
+		if (vnltp == NULL) { printf("LK %d %d %d null\n", findex, row, column); continue; }
+		printf("LK %d %d %d %d %a %a\n", findex, row, column, vnltp->vnlt_count,
+			creal(vnltp->vnlt_sum), cimag(vnltp->vnlt_sum));
+	    }
+    }
+    for (vnacal_new_measurement_t *vnmp = vnp->vn_measurement_list; vnmp != NULL; vnmp = vnmp->vnm_next) {
+	const vnacal_new_msv_matrices_t *vnmmp = &vnssp->vnss_msv_matrices[vnmp->vnm_index];
+	for (int row = 0; row < m_rows; ++row)
+	    for (int column = 0; column < m_columns; ++column) {
+		const int m_cell = row * m_columns + column;
+		if (vnmp->vnm_m_matrix[m_cell] == NULL)
+		    continue;
+		if (row != column && vnmp->vnm_connectivity_matrix != NULL &&
+			!vnmp->vnm_connectivity_matrix[row * s_columns + column])
+		    printf("LS %d %d %d %d\n", findex, vnmp->vnm_index, row, column);
+		printf("LA %d %d %d %a %a\n", findex, vnmp->vnm_index, m_cell,
+			creal(vnmmp->vnmm_m_matrix[m_cell]), cimag(vnmmp->vnmm_m_matrix[m_cell]));
+	    }
+    }
+    printf("endleak %d\n", findex);
+    return calcore_inner_solve_simple(vnssp, x_vector, x_length);
+}
 
 extern double complex _vnacommon_mldivide(double complex *x, double complex *a,
 	const double complex *b, int m, int n);
